@@ -49,7 +49,7 @@ def sync_method(repo: Repo, aliases: bool = False):
                 return _inl.normalize(repo, ma, raw, aliases=aliases, receivers={params[0]: mm}, also=tuple({c.func.attr for c in delegates}))
             except Exception:
                 pass
-    return _inl.normalize(repo, ma, raw, aliases=aliases) if aliases else upd
+    return _inl.normalize(repo, ma, raw, aliases=aliases)
 
 
 def mapping_alignment_rule(repo: Repo, rep, P: str, rule: str):
